@@ -94,9 +94,36 @@ def job(args):
     desc = find_script(name)
     t0 = time.time()
     S = run_script(desc, repo=repo)
+    results = [res_dict(r, S.label) for r in S.results]
+    fallback = None
+    if S.error and S.error[0] == "unsupported":
+        # the current code uses a construct outside the VC generator's subset (typically a new loop over a symbolic-length array).
+        # Never an alarm: an optional (unbounded) script is skipped; a script over a symbolic length falls back to the same
+        # obligations at concrete lengths (every value still symbolic), reported as a BOUNDED fallback and not counted as proved.
+        reason = str(S.error[1])
+        if desc.get("optional"):
+            S.error = ("not-applicable", "construct outside the VC generator's subset in the current code (" + reason + ")")
+            results = []
+        elif getattr(S, "used_length", False):
+            sizes_fb = list(range(1, 5) if tier == "quick" else range(1, 7))
+            fb_results, ok = [], True
+            for n in sizes_fb:
+                S2 = run_script(desc, mode="refute", sizes=collections.defaultdict(lambda n=n: n), repo=repo)
+                if S2.error:
+                    ok = False
+                    break
+                for r in S2.results:
+                    d = res_dict(r, S2.label)
+                    d["bounded_fallback"] = n
+                    fb_results.append(d)
+            if ok and fb_results:
+                fallback = {"reason": reason, "sizes": sizes_fb, "obligations": len(fb_results),
+                            "discharged": sum(1 for d in fb_results if d["status"] == "proved")}
+                results = fb_results
+                S.error = None
     out = {"script": name, "props": desc["props"], "paths": S.paths, "path_ends": S.path_ends, "wall": S.wall,
            "error": S.error, "dropped": S.dropped, "vacuity": S.vacuity, "path_sat": getattr(S, "path_sat", {}), "executed": getattr(S, "executed", {}),
-           "results": [res_dict(r, S.label) for r in S.results], "counterexamples": [], "native_desc": getattr(S, "native_desc", None)}
+           "results": results, "counterexamples": [], "native_desc": getattr(S, "native_desc", None), "fallback": fallback}
     # clauses covered by a recorded known finding are decided by replaying the recorded witness, not by a new search
     failed = [r for r in out["results"] if r["status"] in ("failed", "unknown") and not r.get("known_id")]
     if failed and S.error is None:
@@ -271,6 +298,7 @@ def run_property(prop, tier):
     path_sat = collections.Counter()
     vac = 0
     skipped = []
+    fallbacks = []
     for o in outs:
         if o["error"] and o["error"][0] == "not-applicable":
             # an unbounded proof script whose loop summaries do not fit the current code shape: skipped, never an alarm
@@ -285,9 +313,15 @@ def run_property(prop, tier):
         for k_, v_ in (o.get("path_sat") or {}).items():
             path_sat[k_] += v_
         cex = {c["clause"]: c for c in o["counterexamples"]}
+        if o.get("fallback"):
+            fallbacks.append(f"{o['script']}: unbounded proof unavailable for the current code shape ({o['fallback']['reason']}); BOUNDED fallback at "
+                             f"lengths {o['fallback']['sizes']}: {o['fallback']['discharged']}/{o['fallback']['obligations']} obligations (not counted as proved)")
+            print("BOUNDED-FALLBACK", fallbacks[-1][:260])
         for r in o["results"]:
             if r.get("props") and prop not in r["props"]:
                 continue
+            if r.get("bounded_fallback") is not None and r["status"] == "proved":
+                continue            # bounded: never counted among the discharged obligations
             nobl += 1
             solver_time += r["secs"]
             if r["status"] == "proved":
@@ -414,7 +448,7 @@ def run_property(prop, tier):
                         "rule": "per path: 'False' must not follow from the hypotheses (nl-abstracted, rlimit); a script with no satisfiable path is an engine error"},
             "engine_selftest": "passed on this run: a false obligation was refuted with a counter-model, contradictory hypotheses were "
                                "flagged as vacuous, a true obligation was proved",
-            "known_findings": known_lines, "undecided": undecided[:20], "scripts_not_applicable_to_code_shape": skipped,
+            "known_findings": known_lines, "undecided": undecided[:20], "scripts_not_applicable_to_code_shape": skipped, "bounded_fallbacks": fallbacks,
             "samples": samples or [{"obligation": outs[0]["results"][0]["name"] if outs and outs[0]["results"] else "none"}],
             "explanation": META.EXPLANATION.get(prop, ""),
             "bounded_standins": bsummary,
